@@ -25,7 +25,11 @@ def ev(t, env):
     if k == "const" and isinstance(t[2], int):
         return t[2]
     if k == "cast":
-        return ev(t[2], env)
+        v = ev(t[2], env)
+        w = {"u8": 8, "i8": 8, "u16": 16, "i16": 16, "u32": 32, "i32": 32, "u64": 64, "i64": 64, "usize": 64, "isize": 64}.get(t[3] if len(t) > 3 else "")
+        if isinstance(v, int) and not isinstance(v, bool) and w and str(t[1]).startswith("IntToInt"):
+            return v % (2 ** w)      # integer casts truncate
+        return v
     if k in ("copy", "move", "deref", "ref"):
         return ev(t[1], env)
     if k == "field" and t[2] == "0" and isinstance(t[1], tuple) and t[1][0] == "bin" and t[1][1].endswith("WithOverflow"):
